@@ -233,6 +233,13 @@ impl Node {
                 let key = net_addr.to_record_key();
                 let pretty_key = PrettyPrintRecordKey::from(&key);
                 debug!("Got record to store without payment for register at {pretty_key:?}");
+                // check if the deserialized value's RegisterAddress matches the record's key
+                if record.key != key {
+                    warn!(
+                        "Record's key does not match with the value's RegisterAddress, ignoring PUT."
+                    );
+                    return Err(Error::RecordKeyMismatch);
+                }
                 if !self.validate_key_and_existence(&net_addr, &key).await? {
                     debug!("Ignore store without payment for register at {pretty_key:?}");
                     return Err(Error::InvalidPutWithoutPayment(
